@@ -337,7 +337,7 @@ Section TreeBackbone.
 
   Lemma tb_phase2 : exists ga, exec_network_simplex (Layout.ns_params o) g1 = Ok ga /\ init_layer_slices ga = Ok g2.
   Proof.
-    pose proof (bb_e2 _ _ _ _ _ _ _ _ _ _ _ _ _ _ _ _ BB) as P2. rewrite NS in P2. unfold phase2 in P2.
+    pose proof (bb_e2 _ _ _ _ _ _ _ _ _ _ _ _ _ _ _ _ BB) as P2. rewrite NS in P2. unfold phase2, assign_layers in P2.
     assert (N1 : Nat.eqb (length (g_N g1)) 1 = false).
     { apply Nat.eqb_neq. rewrite <- (p2_N _ _ PP). pose proof (s2_two _ _ _ _ S23). lia. }
     rewrite N1 in P2.
